@@ -181,6 +181,33 @@ func cyclicKind(k kind) bool {
 var arrayMutators = []string{"Array.prototype.pop", "Array.prototype.push", "Array.prototype.shift", "Array.prototype.unshift", "Array.prototype.splice", "Array.prototype.reverse", "Array.prototype.sort"}
 var arg0Writers = []string{"Object.assign", "Object.defineProperty", "Object.defineProperties", "Object.freeze", "Object.seal", "Object.preventExtensions"}
 
+// exportsIntoBridgedContainer: the call stores its arguments into a bridged Go map[string]interface{} or
+// []interface{} (receiver of an Array.prototype mutator, first argument of Object.assign/defineProperty…):
+// every stored value is converted with Value.export, which has no visited set (C02-EXPORT-CYCLE). Whether an
+// argument is cyclic does not only depend on its kind: earlier calls of the batch can have made every array
+// cyclic (Array.prototype.push(a) pollutes Array.prototype[1], then a[1] === a for every a with a hole), or
+// stored a container into itself. While the finding stands such calls therefore run on a FRESH runtime (no
+// history); they are not skipped.
+func exportsIntoBridgedContainer(fn fnEntry, recv kind, ap argPlan, ks []kind, way int) bool {
+	if !known("C02-EXPORT-CYCLE") {
+		return false
+	}
+	bridgedAny := func(name string) bool { return isOneOf(name, "go-map", "go-slice-any") }
+	if isOneOf(fn.Path, arrayMutators...) {
+		switch way {
+		case 0, 2:
+			return bridgedAny(recv.Name)
+		case 3:
+			return recv.Name != "undefined" && bridgedAny(recv.Name)
+		}
+		return false
+	}
+	if isOneOf(fn.Path, arg0Writers...) && len(ap.Kinds) > 0 && ap.Reenter != 0 {
+		return bridgedAny(ks[ap.Kinds[0]].Name)
+	}
+	return false
+}
+
 // excludedCall: the (function, receiver, arguments, way) classes steered around in facet builtin-surface.
 func excludedCall(fn fnEntry, recv kind, ap argPlan, ks []kind, way int) string {
 	arg := func(i int) (kind, bool) {
@@ -257,7 +284,7 @@ func excludedCall(fn fnEntry, recv kind, ap argPlan, ks []kind, way int) string 
 	if known("C02-GOSLICE-DEFINE-DESCRIPTOR") && isOneOf(fn.Path, "Object.assign", "Object.defineProperty", "Object.defineProperties") && has0 && isOneOf(a0.Name, "go-slice", "go-slice-any", "go-array") {
 		return "C02-GOSLICE-DEFINE-DESCRIPTOR"
 	}
-	if known("C02-EXPORT-CYCLE") && target(func(k kind) bool { return isOneOf(k.Name, "go-map", "go-slice-any") }) && (anyArg(cyclicKind) || cyclicKind(this)) {
+	if known("C02-EXPORT-CYCLE") && target(func(k kind) bool { return isOneOf(k.Name, "go-map", "go-slice-any") }) && (anyArg(cyclicKind) || cyclicKind(this) || anyArg(func(k kind) bool { return k.Name == "reentrant-callback" })) {
 		return "C02-EXPORT-CYCLE" // a value stored into map[string]interface{} is exported first
 	}
 	return ""
